@@ -133,6 +133,14 @@ inductive Op (V : Type) where
   | keys
   | values
 
+/-- the operations that exist without `preserve_order` (`shift_insert`, `swap_*`, `shift_*` are
+    `#[cfg(feature = "preserve_order")]`) -/
+def Op.inDefault {V : Type} : Op V → Bool
+  | .shiftInsert _ _ _ => false
+  | .remove .swap _ _ _ => false
+  | .remove .shift _ _ _ => false
+  | _ => true
+
 inductive Ret (V : Type) where
   | unit
   | optV (o : Option V)
